@@ -183,7 +183,24 @@ theorem bandpass_homogeneous (shape : List Nat) (img : Array Rat) (lshort : List
           get_map_lt _ _ hq', clip_scale hc]
 
 
-/-! ## transposition (2-D) -/
+/-- the default threshold of a float image is 1/255: omitting it is the same as passing it, so
+    the linearity statement covers the default as well (`c/255` on the scaled side) -/
+theorem bandpass_default_thr (shape : List Nat) (img : Array Rat) (lshort : List Rat)
+    (kernels : List (Array Rat)) (llong : List Int) :
+    bandpass shape img lshort kernels llong none =
+      bandpass shape img lshort kernels llong (some (1 / 255)) := rfl
+
+/-! ## transposition (2-D)
+
+-- FULL (not proved): for every dimension `n` and every permutation `π` of the axes,
+--   bandpass (π·shape) (permuteAxes π img) (π·lshort) (π·kernels) (π·llong) thr
+--     = (bandpass shape img lshort kernels llong thr).map (permuteAxes π).
+-- Proved below for n = 2 (`bandpass_transpose`, the only non-trivial permutation).  The generic
+-- ingredients hold in any dimension (`apply_comm`: passes along different axes are commuting
+-- linear maps; `passes_scale`, `size_passes`), what is missing is the flat-index bookkeeping of
+-- `axisPass` for n ≥ 3.  In 3-D the clause is exercised on every run with random axis
+-- permutations on the implementation (harness `transpose_checked`).
+-/
 
 theorem lowpass_transpose {H W : Nat} {img : Array Rat} (hsz : img.size = H * W)
     (s0 s1 : Rat) (k0 k1 : Array Rat) :
@@ -224,7 +241,13 @@ theorem bandpass_transpose (H W : Nat) (img : Array Rat) (hsz : img.size = H * W
         subArr_transpose2 (by simpa using hsz) (by simpa using hsz),
         map_transpose2 _ (clip_zero _)]
 
-/-! ## the axis-by-axis passes are the documented 2-D filters -/
+/-! ## the axis-by-axis passes are the documented 2-D filters
+
+-- FULL (not proved): the n-D analogues — `lowpass` = n-fold sum over the outer product of the
+-- per-axis kernels on the zero-extended image, `boxcar` = mean over the `Π llongₐ` box of the
+-- edge-replicated image.  Proved below for 2-D images; for 3-D images the per-run numpy oracle
+-- (explicit n-D sums over the padded image) stands in.
+-/
 
 /-- a line extended by zeros, indexed by integers -/
 def extZ (n : Nat) (g : Nat → Rat) (z : Int) : Rat := if 0 ≤ z ∧ z < n then g z.toNat else 0
